@@ -365,6 +365,12 @@ def run():
   L.append('def sites : Sites :=')
   L.append('  { ' + ', '.join(f'{s} := {common.lean_bool(table[s]["escaped"])}' for s in TREE_SITES) + ' }')
   L.append('')
+  L.append('/-- The sites of the controls as the record the control models take. -/')
+  L.append('def csites : CSites :=')
+  L.append('  { labelText := %s, tooltipContent := %s, subProgressClass := %s }' % (
+      common.lean_bool(table['labelText']['escaped']), common.lean_bool(table['tooltipControlContent']['escaped']),
+      common.lean_bool(table['subProgressClass']['escaped'])))
+  L.append('')
   L.append('/-- `Html.escape` calls `html.escape` with quote=True (its default). -/')
   L.append(f'def escapeQuote : Bool := {common.lean_bool(quote)}')
   L.append('')
